@@ -55,14 +55,19 @@ CLAIM = dict(
     "recomputed from the iterates captured by pass-through wrappers of jacobian / l1_dissipation; only Bregman's aux/force increment is "
     "read from the history the solver wrote) and no fault.",
     note="The hypothesis hupd of newton_preserves_balance is discharged from the model (newton_update_satisfies_hupd, "
-    "newton_model_preserves_balance, mass_row_same_in_every_iterate) and tied: the matrices the live solver assembles in its iterates "
-    "(jacobian / _update_regularization at the first, middle and last captured iterate of every run) equal darcy_init exactly outside the "
-    "diagonal flux-flux block, and darcy_init is tied to the model's assembleFull in C08. The model accepts a nan "
-    "event for Newton although Newton has no NaN branch (harmless: theorems quantify over more). 1^T D = 0 is C06. same_iterate compares "
-    "iterates to 1e-9 and cannot tell stationary iterates apart (then any of them is the last valid one). After a fault in the bookkeeping "
-    "of a pass the convergence_history keeps the entry of the failed pass (not judged). KNOWN FINDINGS: Anderson with a numerically "
-    "rank-deficient least-squares problem (stagnating iteration; detected by a recording wrapper, carried in the signature) breaks the "
-    "mass balance / pressure in float although the algebra preserves it; Bregman's NaN pressure marker after a failed post-processing solve.",
+    "newton_model_preserves_balance, mass_row_same_in_every_iterate) and tied (iterate matrices = darcy_init outside the diagonal "
+    "flux-flux block). The loop model also carries what the handler restores the DISTANCE from (re-bound at the top of every pass, or "
+    "committed by the last statement of every body: commit_matters) and the block after the loop (Bregman's guarded pressure "
+    "post-processing: post_loop_failure_only_marks_pressure; tied by injecting a failure into the post-loop solve). The accelerator "
+    "model includes the column filter of its least-squares problem (anderson_filtered_run_preserves_balance; the stubbed-lstsq tie "
+    "sees which columns are passed). The model accepts a nan event for Newton although Newton has no NaN branch (harmless). 1^T D = 0 "
+    "is C06. same_iterate compares iterates to 1e-9 and cannot tell stationary iterates apart. After a fault in the bookkeeping of a "
+    "pass the convergence_history keeps the entry of the failed pass (not judged). KNOWN FINDINGS (exact classes; everything else is a "
+    "violation): degenerate mobility = a reconstructed cell-centre flux below 1e-10 of the flux scale (weights ~ 1/regularisation, "
+    "Schur complement numerically singular): Newton's returned flux misses D u = f with direct (<= 1e-1 max|f|), amg and cg (<= max|f|, "
+    "cg also NaN), cg/amg NaN pressures - signatures carry back-end and magnitude class. There is NO mask for Anderson-on runs any more "
+    "(the degenerate least-squares blow-up is fixed upstream; reverting that fix makes the check exit 1) and none for the post-processing "
+    "NaN marker (it does not occur uninjected on main in 480 configurations).",
     technique="Lean 4 proofs (invariant over the loop model; Finset / sumTo algebra) + AST extraction (G2) + fault-injection correspondence + oracle",
 )
 
@@ -120,17 +125,17 @@ def _is_criteria(st, it):
     return first is not None and ast.unparse(first) == f"{it} > 1"
 
 
-def _bodies(stmts, it, tracked):
+def _bodies(stmts, it, tracked, saved_dist=None):
     """alternative statement lists (label, effect) of a try body, in source order"""
     alts = [[]]
     for st in stmts:
         if isinstance(st, ast.With):
-            sub = _bodies(st.body, it, tracked)
+            sub = _bodies(st.body, it, tracked, saved_dist)
             alts = [a + b for a in alts for b in sub]
             continue
         if isinstance(st, ast.If) and st.orelse and "linear_solve" in _self_calls(ast.Module(body=st.body, type_ignores=[])) \
                 and "linear_solve" in _self_calls(ast.Module(body=st.orelse, type_ignores=[])):
-            sub = _bodies(st.body, it, tracked) + _bodies(st.orelse, it, tracked)
+            sub = _bodies(st.body, it, tracked, saved_dist) + _bodies(st.orelse, it, tracked, saved_dist)
             alts = [a + b for a in alts for b in sub]
             continue
         calls = _self_calls(st)
@@ -145,6 +150,9 @@ def _bodies(stmts, it, tracked):
         elif "new_distance" in roots:
             effect = "writeDist"
             label = label or "setDistance"
+        elif saved_dist is not None and saved_dist in roots:
+            # the statement that refreshes what the handler restores the distance from (`old_distance = new_distance`)
+            label, effect = "commit", "commitDist"
         elif label is None:
             src = ast.unparse(st)
             if isinstance(st, ast.If) and "isnan" in src:
@@ -160,7 +168,8 @@ def _bodies(stmts, it, tracked):
 
 def extract_code(cls):
     """AST of cls._solve -> dict(bodies, restoreSol, restoreDist, flagOnBreak, distInit, iterInit, why)"""
-    code = dict(bodies=[], restoreSol=False, restoreDist=False, flagOnBreak=False, distInit=False, iterInit=False, saveIsCopy=False, why=[])
+    code = dict(bodies=[], restoreSol=False, restoreDist=False, flagOnBreak=False, distInit=False, iterInit=False, saveIsCopy=False,
+                saveDistBeforeTry=False, post="none", why=[])
     try:
         fn = ast.parse(textwrap.dedent(inspect.getsource(cls._solve))).body[0]
     except (OSError, TypeError, SyntaxError, IndexError) as e:
@@ -185,7 +194,23 @@ def extract_code(cls):
     post_src = "\n".join(ast.unparse(x) for x in post)
     tracked = "flux" if "flux.copy()" in post_src or "= flux" in post_src else "solution_i"
     code["tracked"] = tracked
-    code["bodies"] = _bodies(tr.body, it, tracked)
+    # the name the handler restores the distance from, and where it is refreshed: at the top of every pass (before the try) or
+    # by a statement of the body (effect commitDist)
+    h_pre = {name: n for name, n in _names_assigned(handler.body)}
+    saved_dist = h_pre["new_distance"].value.id if "new_distance" in h_pre and isinstance(h_pre["new_distance"].value, ast.Name) else None
+    before_try0 = loop.body[: loop.body.index(tr)]
+    code["saveDistBeforeTry"] = saved_dist is not None and any(name == saved_dist for name, _ in _names_assigned(before_try0))
+    code["saved_dist"] = saved_dist
+    code["bodies"] = _bodies(tr.body, it, tracked, None if code["saveDistBeforeTry"] else saved_dist)
+    # what follows the loop: a linear solve inside try/except (its failure only marks the pressure), a bare one, or none
+    post_kind = "none"
+    for st in post:
+        if isinstance(st, ast.Try) and "linear_solve" in _self_calls(st):
+            marks = any("nan" in ast.unparse(h).lower() for h in st.handlers)
+            post_kind = "guarded" if marks and not any(isinstance(n, ast.Raise) for h in st.handlers for n in ast.walk(h)) else "unguarded"
+        elif not isinstance(st, ast.Try) and "linear_solve" in _self_calls(st):
+            post_kind = "unguarded"
+    code["post"] = post_kind
     # converged
     conv = None
     for st in post:
@@ -267,7 +292,8 @@ def _lean_code(code) -> str:
     bodies = ",\n     ".join("[" + ", ".join(f"⟨.{l}, .{e}⟩" for l, e in b) + "]" for b in code["bodies"])
     fl = lambda k: "true" if code[k] else "false"
     return ("{ bodies := [" + bodies + "],\n    restoreSol := " + fl("restoreSol") + ", restoreDist := " + fl("restoreDist") +
-            ", flagOnBreak := " + fl("flagOnBreak") + ", distInit := " + fl("distInit") + ", iterInit := " + fl("iterInit") + ", saveIsCopy := " + fl("saveIsCopy") + " }")
+            ", flagOnBreak := " + fl("flagOnBreak") + ", distInit := " + fl("distInit") + ", iterInit := " + fl("iterInit") + ", saveIsCopy := " + fl("saveIsCopy") +
+            ",\n    saveDistBeforeTry := " + fl("saveDistBeforeTry") + ", post := ." + code["post"] + " }")
 
 
 def emit(codes) -> str:
@@ -496,7 +522,19 @@ def run_solver(d, cfg, fault=None, num_iter=None):
         if w.anderson is not None:
             rec_aa = RecordingAnderson(w.anderson)
             w.anderson = rec_aa
-        if fault is not None:
+        n_ls = [0]
+        ls0 = w.linear_solve
+
+        def ls_count(*a, _l=ls0, **k):
+            n_ls[0] += 1
+            return _l(*a, **k)
+
+        w.linear_solve = ls_count
+        cap["n_linear_solves"] = n_ls
+        if fault is not None and fault[0] == "post":
+            # the solve AFTER the loop (Bregman's pressure post-processing): the `fault[1]`-th linear solve of the run
+            w.linear_solve = RaisingCallable(w.linear_solve, fault[1], "linear_solve (post-loop)")
+        elif fault is not None:
             inj = injection(cfg, fault[0], fault[1])
             if inj is None:
                 return None
@@ -545,7 +583,11 @@ def recomputed(cfg, cap):
             if isinstance(J, Raised):
                 break
             dg = np.abs(np.asarray(J.diagonal()[:nf], dtype=float))
-            if nf and float(dg.min()) > 0 and float(dg.max() / dg.min()) > 1e10:
+            mf = np.abs(np.asarray(w.mass_matrix_faces.diagonal(), dtype=float)) if nf else np.ones(0)
+            umax = float(np.abs(x[:nf]).max()) if nf else 0.0
+            # a weight w_e = (cell weight)^2 / |cell flux| that is 1e10 times larger than 1 / max|u|: some reconstructed cell flux
+            # is below 1e-10 of the flux scale (relative criterion; also when ALL cell-centre fluxes vanish)
+            if nf and float((dg / mf).max()) * max(umax, 1e-300) > 1e10:
                 out["degenerate"] = True  # weights up to 1/regularisation: J x is dominated by rounding, recomputation meaningless
             out["residual"].append(float(np.linalg.norm(rhs - J @ x)))
             if j + 1 < len(fluxes):
@@ -572,8 +614,8 @@ def criteria_met_at(cfg, hist, i, rc=None):
             # ones (a stored value that does not belong to the iterates makes the criteria count as not met)
             h2 = dict(hist)
             for key in ("residual", "flux_increment", "mass_conservation_residual"):
-                if rc and rc.get("degenerate") and key == "residual":
-                    continue  # degenerate mobility: the stored residual is used (see findings: degenerate-mobility)
+                if rc and rc.get("degenerate"):
+                    continue  # degenerate mobility: J x and the captured iterates are dominated by rounding; stored values are used
                 if rc and len(rc.get(key, [])) > i and key in hist and len(hist[key]) > i:
                     mine, theirs = np.array(rc[key][: i + 1]), np.array(hist[key][: i + 1], dtype=float)
                     ok_ = np.all(np.abs(mine[[0, i]] - theirs[[0, i]]) <= 1e-7 * np.maximum(np.abs(mine[[0, i]]), 1e-300) + 1e-13)
@@ -609,13 +651,15 @@ def events_of(cfg, cap, fault, num_iter):
     ev = [("ok1" if criteria_met_at(cfg, hist, i, rc) else "ok0") + f":{br(i)}" for i in range(n_done)]
     broke = n_done > 0 and n_done - 1 > 1 and ev[-1].startswith("ok1")
     if not broke and n_done < num_iter:
-        if fault is not None and fault[1] == n_done:
+        if fault is not None and fault[0] != "post" and fault[1] == n_done:
             ev.append(fault_token(cfg, fault[0], fault[1]))
         elif cap["warned"]:
             # a failure that was not injected (e.g. singular weights); program point unknown, sound code treats all alike
             ev.append(fault_token(cfg, "linearSolve", n_done))
         elif isinstance(cap["distance"], float) and np.isnan(cap["distance"]):
             ev.append("nan")
+    if fault is not None and fault[0] == "post":
+        ev.append("post")
     return ev, n_done
 
 
@@ -641,6 +685,7 @@ def check_run(ctx, d, cfg, cap, fault, num_iter, label):
     rp = {"kind": "run", "cfg": dict(cfg), "fault": list(fault) if fault else None, "num_iter": num_iter}
     ev, n_done = events_of(cfg, cap, fault, num_iter)
     faulted = bool(ev) and ev[-1].startswith("f:")
+    post_injected = fault is not None and fault[0] == "post"
     converged = bool(info.get("converged"))
     dist = cap["distance"]
     # (1) mass balance of the returned flux
@@ -656,13 +701,17 @@ def check_run(ctx, d, cfg, cap, fault, num_iter, label):
     degenerate, sp_term = False, 0.0
     if not isinstance(fw, Raised) and nf and np.all(np.isfinite(fw)) and float(np.min(np.abs(fw))) > 0:
         Wd = np.abs(np.asarray(fw, dtype=float)) * np.abs(np.asarray(w.mass_matrix_faces.diagonal(), dtype=float))
-        degenerate = float(Wd.max() / Wd.min()) > 1e10
+        degenerate = float(np.abs(np.asarray(fw, dtype=float)).max()) * max(float(np.abs(u).max()), 1e-300) > 1e10
         pabs = np.abs(cap["solution"][nf:nf + nc])
         pabs = np.where(np.isfinite(pabs), pabs, 0.0)
         aD = abs(w.div)
         sp_term = float((aD @ ((aD.T @ pabs) / Wd)).max())
-    tol = 1e4 * EPS * max(scale + cap.get("mass_scale", 0.0) + (2 * sp_term if not iterative else 0.0), 1e-300) * max(nf + nc, 1) \
+    # the tolerance does NOT grow with the conditioning: on degenerate-mobility inputs a miss is reported under a signature
+    # that carries the back-end and the measured magnitude class (relative to max|f|), so only misses of the recorded size are
+    # known findings and a gross violation is still a violation
+    tol = 1e4 * EPS * max(scale + cap.get("mass_scale", 0.0), 1e-300) * max(nf + nc, 1) \
         + (1e-8 * float(np.linalg.norm(f)) if iterative else 0.0)
+    ctx.cov["max_sp_term_degenerate"] = max(ctx.cov.get("max_sp_term_degenerate", 0.0), sp_term if degenerate else 0.0)
     if err <= tol:
         ctx.cov["max_balance_err_over_tol"] = max(ctx.cov.get("max_balance_err_over_tol", 0.0), err / tol)
     else:
@@ -673,8 +722,14 @@ def check_run(ctx, d, cfg, cap, fault, num_iter, label):
         # input class in the signature: Anderson on/off and full vs. reduced formulation (see findings/C04.json)
         # input class in the signature: Anderson off / on / on with a numerically rank-deficient least-squares problem (the
         # recorded finding is only the last one), and full vs. reduced formulation
-        aa_cls = "off" if not cfg.aa else ("degenerate-lstsq" if cap.get("aa_degenerate") else "on")
-        deg = f":degenerate-mobility:{cfg.solver}" if (degenerate or cap.get("degenerate_iterates")) else ""
+        # no mask for Anderson-on runs: the degenerate least-squares blow-up is repaired upstream (column filter); whether the
+        # run stagnated is recorded as a diagnostic only
+        aa_cls = "off" if not cfg.aa else "on"
+        if cap.get("aa_degenerate"):
+            ctx.cov["mass_balance_failures_in_stagnating_anderson_runs"] = ctx.cov.get("mass_balance_failures_in_stagnating_anderson_runs", 0) + 1
+        rel = err / max(float(np.abs(f).max()) if f.size else 0.0, 1e-300)
+        bucket = "non-finite" if not np.isfinite(rel) else ("rel<=1e-1" if rel <= 0.1 else ("rel<=1" if rel <= 1.0 else "rel>1"))
+        deg = f":degenerate-mobility:{cfg.solver}:{bucket}" if (degenerate or cap.get("degenerate_iterates")) else ""
         ctx.fail(f"{sig0}:mass-balance:anderson={aa_cls}:{'full' if cfg.formulation == 'full' else 'reduced'}-formulation{deg}",
                  f"returned flux violates the discrete mass balance: |D u - f|_inf = {err:.3e} > {tol:.3e} ({label})", rp)
     # (2) reported distance is the cost of exactly the returned flux
@@ -708,15 +763,14 @@ def check_run(ctx, d, cfg, cap, fault, num_iter, label):
         ctx.cov["runs_with_nonfinite_pressure"] = ctx.cov.get("runs_with_nonfinite_pressure", 0) + 1
         umax = float(np.abs(u).max()) if nf else 0.0
         vanishing_face = nf > 0 and bool(np.any(np.abs(u) <= 1e-12 * max(umax, 1e-300)))
-        if cfg.method != "newton" and cap.get("pp_failed") and finite_p.size == 0 and vanishing_face:
+        if post_injected and cap.get("pp_failed") and finite_p.size == 0:
+            pass  # specified behaviour (post_loop_failure_only_marks_pressure): NaN marker after an injected post-loop failure
+        elif cfg.method != "newton" and cap.get("pp_failed") and finite_p.size == 0 and vanishing_face:
             # the documented marker of a failed pressure post-processing (singular mobility-weighted system on a face with
             # vanishing flux): "pressure pinned at the reference cell" cannot hold -> reported, exact input class in the signature
             ctx.fail(f"C04:{cfg.method}.__call__:pressure-unavailable(nan):singular-postprocessing:{cfg.mobility}",
                      f"the pressure returned by Bregman is NaN: the post-processing pressure solve failed on a returned flux with a vanishing "
                      f"face flux ({label})", rp)
-        elif cfg.method != "newton" and cfg.aa and cap.get("aa_degenerate") and not cap.get("pp_failed"):
-            ctx.fail(f"C04:{cfg.method}._solve:pressure-non-finite:anderson=degenerate-lstsq:{cfg.solver}",
-                     f"the returned pressure has non-finite entries ({int(p.size - finite_p.size)} of {p.size}; {label})", rp)
         elif cap.get("degenerate_iterates") and cfg.solver in ("amg", "cg"):
             ctx.fail(f"C04:{cfg.method}._solve:pressure-non-finite:degenerate-mobility:{cfg.solver}",
                      f"the returned pressure has non-finite entries ({int(p.size - finite_p.size)} of {p.size}) after an iterative solve of a "
@@ -780,12 +834,16 @@ def explore(ctx, d, cfg, lines, impl):
             ctx.cov["solver_runs"] += 1
         return trunc[j]
 
-    faults = [None] + [(pt, j) for j in cfg.fault_at for pt in cfg.points]
+    faults = [None] + [(pt, j) for j in cfg.fault_at for pt in cfg.points] + ([("post", None)] if cfg.method != "newton" else [])
     clean_passes = None
+    clean_cap = None
     for fault in faults:
-        # inject only into passes the loop actually executes (Bregman solves once more after the loop; a failure there
-        # propagates as an exception, which is honest and not what the property quantifies over)
-        if fault is not None and (clean_passes is None or fault[1] >= clean_passes or injection(cfg, *fault) is None):
+        if fault is not None and fault[0] == "post":
+            if clean_cap is None:
+                continue
+            fault = ("post", clean_cap["n_linear_solves"][0] - 1)  # the last linear solve of the clean run is the one after the loop
+        # in-loop faults: only into passes the loop actually executes; the solve after the loop (Bregman) has its own fault ("post")
+        if fault is not None and fault[0] != "post" and (clean_passes is None or fault[1] >= clean_passes or injection(cfg, *fault) is None):
             continue
         label = f"{cfg.method} {tuple(cfg.shape)} {cfg.masses} {cfg.formulation}/{cfg.solver} {cfg.l1}/{cfg.mobility} aa={cfg.aa}{'/r' + str(cfg.aa_restart) if cfg.aa_restart else ''} fault={fault}"
         cap = run_solver(d, cfg, fault)
@@ -806,6 +864,7 @@ def explore(ctx, d, cfg, lines, impl):
         conv, nit, dcost, n_done, ev = check_run(ctx, d, cfg, cap, fault, N, label)
         if fault is None:
             clean_passes = n_done
+            clean_cap = cap
         seen = (fault[0] if fault else (ev[-1] if ev else "none"))
         ctx.cov["events_seen"][seen] = ctx.cov["events_seen"].get(seen, 0) + 1
         # which iterate is returned: the clean run truncated to the number of completed passes
@@ -814,14 +873,29 @@ def explore(ctx, d, cfg, lines, impl):
             if j > N:
                 continue
             t = truncated(j) if j != N or fault is not None else cap
-            if not isinstance(t, Raised) and "solution" in t and same_iterate(cap["solution"], t["solution"], cfg):
+            nfc = int(cap["w"].grid.num_faces)
+            cut = nfc if (fault is not None and fault[0] == "post") else None  # the pressure is the NaN marker then: compare fluxes
+            if not isinstance(t, Raised) and "solution" in t and same_iterate(cap["solution"][:cut], t["solution"][:cut], cfg):
                 sol_tag = j
                 break
         dist_tag = sol_tag if dcost else ("none" if cap["distance"] == 0 else "other")
         lines.append(f"loop {method} gen {N} {len(ev)} " + " ".join(ev))
+        evl = [e for e in ev if e != "post"]
+        wv, nfv = cap["w"], int(cap["w"].grid.num_faces)
+        pv = cap["solution"][nfv:nfv + int(wv.grid.num_cells)]
+        # the NaN marker of the post-processing; any other non-finite pressure is judged by the per-run oracle, not here
+        marker = cap.get("pp_failed") and not np.any(np.isfinite(pv))
+        ptag = "nan" if marker else (sol_tag if sol_tag is not None else "other")
         impl.append(f"{int(conv)} {nit if nit is not None else 'none'} {dist_tag if dist_tag is not None else 'other'} "
-                    f"{sol_tag if sol_tag is not None else 'other'} {int(bool(ev) and (ev[-1].startswith('f:') or ev[-1] == 'nan' or (ev[-1].startswith('ok1') and len(ev) - 1 > 1)))}")
-        if (fault is not None or cap["warned"]) and sol_tag != n_done:
+                    f"{sol_tag if sol_tag is not None else 'other'} {int(bool(evl) and (evl[-1].startswith('f:') or evl[-1] == 'nan' or (evl[-1].startswith('ok1') and len(evl) - 1 > 1)))} {ptag}")
+        if fault is not None and fault[0] == "post" and clean_cap is not None:
+            # a failure after the loop must leave distance, flux and status exactly as in the clean run
+            same = (cap["distance"] == clean_cap["distance"] and conv == bool(clean_cap["info"].get("converged"))
+                    and np.array_equal(cap["solution"][:nfv], clean_cap["solution"][:nfv]))
+            if not same:
+                ctx.fail(f"C04:{cfg.method}._solve:post-loop-failure-changes-result",
+                         f"a failure of the pressure post-processing after the loop changed distance / flux / status ({label})", rp)
+        if ((fault is not None and fault[0] != "post") or cap["warned"]) and sol_tag != n_done:
             ctx.fail(f"C04:{cfg.method}._solve:not-last-valid-iterate",
                      f"after a failure in pass {n_done} the returned solution is not the last valid iterate (matches iterate {sol_tag}; {label})", rp)
 
@@ -903,7 +977,7 @@ def loop_model_selfcheck(ctx, codes):
                         if i > 1 and e.startswith("ok1"):
                             conv, stopped = 1, 1
                             break
-                    expect.append(f"{conv} {it} {cur} {cur} {stopped}")
+                    expect.append(f"{conv} {it} {cur} {cur} {stopped} {cur}")
     ctx.correspond("loop-model (generated bodies, fault at every statement) vs independent scan", [" ".join(l.split()) for l in lines], expect)
 
 
@@ -1007,7 +1081,7 @@ def aux_correspondence(ctx, d):
 def anderson_correspondence(ctx, d):
     """real `darsia.AndersonAcceleration` on dyadic vectors with the least-squares routine stubbed (prescribed dyadic weights)
     against `DarsiaModel.Anderson.call`: every returned iterate must equal the model exactly (history columns, column index,
-    restart, mixing formula); plus the property-level check that an affine constraint shared by all images is kept."""
+    restart, column filter of the least-squares problem, mixing formula); plus the property-level check that an affine constraint shared by all images is kept."""
     import scipy.linalg as sla
 
     lines, impl = [], []
@@ -1023,6 +1097,8 @@ def anderson_correspondence(ctx, d):
             g = np.array([rng.randint(-8, 8) / 2.0 for _ in range(dim)])
             g[-1] += 3.0 - g.sum()
             f = np.array([rng.randint(-8, 8) / 4.0 for _ in range(dim)])
+            if calls and rng.random() < 0.35:
+                f = calls[-1][1].copy()  # repeated increment: the new difference column of F vanishes and must be left out
             inner = k % restart if restart is not None else k
             mk = min(inner, depth)
             gamma = [rng.randint(-4, 4) / 2.0 for _ in range(mk)]
@@ -1035,8 +1111,9 @@ def anderson_correspondence(ctx, d):
             state = {"gamma": None}
 
             def stub(A, b, *a, **kw):
+                # returns as many of the prescribed weights as it is handed columns (the column filter decides how many)
                 seen_shapes.append(tuple(np.shape(A)))
-                return (np.array(state["gamma"], dtype=float), None, None, None)
+                return (np.array(state["gamma"][: np.shape(A)[1]], dtype=float), None, None, None)
 
             sla.lstsq = stub
             for k, (g, f, gamma) in enumerate(calls):
@@ -1092,21 +1169,26 @@ def model_selfchecks(ctx, codes):
     for m in ("newton", "bregman"):
         c = codes[m]
         sound = all(c[k] for k in ("restoreSol", "restoreDist", "flagOnBreak", "distInit", "iterInit", "saveIsCopy")) and bool(c["bodies"])
-        eff = {"none": "-", "writeSol": "sol", "writeDist": "dist", "criteria": "crit"}
-        if sound:  # the body-order part of `sound` is evaluated by Lean; here only for well-ordered bodies
+        eff = {"none": "-", "writeSol": "sol", "writeDist": "dist", "criteria": "crit", "commitDist": "commit"}
+        if sound:  # the body-order / commit part of `sound` mirrored here
             def ok(b):
                 effs = [e for _, e in b]
                 if "writeSol" not in effs or "writeDist" not in effs:
                     return False
                 last_d = max(i for i, e in enumerate(effs) if e == "writeDist")
                 return all(e != "writeSol" for e in effs[last_d + 1:])
-            sound = all(ok(b) for b in c["bodies"])
+
+            def cm(b):
+                effs = [e for _, e in b]
+                return ("commitDist" not in effs) if c["saveDistBeforeTry"] else (bool(effs) and effs[-1] == "commitDist" and "commitDist" not in effs[:-1])
+            sound = all(ok(b) and cm(b) for b in c["bodies"])
         lines.append(f"points {m}")
         expect.append(f"sound={int(sound)} | " + " | ".join(" ".join(f"{l}/{eff[e]}" for l, e in b) for b in c["bodies"]))
     # the witnesses of the as-found code, through the driver (same statements as the theorems asFound_*)
-    for line, exp in (("loop newton asFound 5 1 f:0:linearSolve", "1 0 none 0 1"), ("loop bregman asFound 5 1 f:1:linearSolve", "1 0 none 0 1"),
-                      ("loop newton asFound 5 2 ok0 f:0:distance", "1 1 1 2 1"), ("loop newton asFound 0 0", "!UnboundLocalError none none 0 0"),
-                      ("loop bregman asFound 0 0", "0 0 none 0 0")):
+    for line, exp in (("loop newton asFound 5 1 f:0:linearSolve", "1 0 none 0 1 0"), ("loop bregman asFound 5 1 f:1:linearSolve", "1 0 none 0 1 0"),
+                      ("loop newton asFound 5 2 ok0 f:0:distance", "1 1 1 2 1 2"), ("loop newton asFound 0 0", "!UnboundLocalError none none 0 0 0"),
+                      ("loop bregman asFound 0 0", "0 0 none 0 0 0"), ("loop bregman asFound 3 1 post", "0 2 3 3 0 raise"),
+                      ("loop bregman gen 3 1 post", "0 2 3 3 0 nan")):
         lines.append(line)
         expect.append(exp)
     ctx.correspond("driver: generated program points / as-found witnesses", lines, expect)
@@ -1119,7 +1201,7 @@ def run(ctx):
     codes = {"newton": extract_code(W.WassersteinDistanceNewton), "bregman": extract_code(W.WassersteinDistanceBregman)}
     ctx.write_gen("SolveLoopGen", emit(codes))
     ctx.cov["generated_tables"] = {k: {"bodies": [[f"{l}/{e}" for l, e in b] for b in v["bodies"]], "tracked": v.get("tracked"),
-                                       "flags": {f: v[f] for f in ("restoreSol", "restoreDist", "flagOnBreak", "distInit", "iterInit", "saveIsCopy")},
+                                       "flags": {f: v[f] for f in ("restoreSol", "restoreDist", "flagOnBreak", "distInit", "iterInit", "saveIsCopy", "saveDistBeforeTry", "post")},
                                        "why_not_sound": v["why"]} for k, v in codes.items()}
     ctx.prove("C04")
     ctx.cov["solver_runs"] = 0
